@@ -245,10 +245,10 @@ def analyze(ctx, want):
     # the unsafe index: ids are only minted by the registry, the class table only grows, the closure is created last
     for c in callers_of(F, r"internal::ids::CharClassID::new$"):
         fn = c[0]
-        ok = re.search(r"CharacterClassRegistry::add_character_class$|<internal::ids::CharClassID as std::convert::From<u32>>::from$", fn.name) is not None
+        ok = re.search(r"CharacterClassRegistry::add_character_class$|<internal::ids::CharClassID as std::convert::From<u\d+>>::from$", fn.name) is not None
         ob("C02.f", "class-id-minted-by:" + M.short_name(fn.name), ok, "CharClassID::new called in %s" % fn.name, fn.loc(c[1]))
         ob("C14.c", "class-id-minted-by:" + M.short_name(fn.name), ok, "CharClassID::new called in %s" % fn.name, fn.loc(c[1]))
-    for c in callers_of(F, r"<internal::ids::CharClassID as std::convert::From<u32>>::from$|<u32 as std::convert::Into<internal::ids::CharClassID>>::into$"):
+    for c in callers_of(F, r"<internal::ids::CharClassID as std::convert::From<u\d+>>::from$|<u\d+ as std::convert::Into<internal::ids::CharClassID>>::into$"):
         ob("C02.f", "class-id-from-raw-number:" + M.short_name(c[0].name), False, "a CharClassID is made from a raw number in %s" % c[0].name, c[0].loc(c[1]))
         ob("C14.c", "class-id-from-raw-number:" + M.short_name(c[0].name), False, "a CharClassID is made from a raw number in %s" % c[0].name, c[0].loc(c[1]))
     ws = field_writers(F, "CharacterClassRegistry", "character_classes")
@@ -266,11 +266,22 @@ def analyze(ctx, want):
         pos = [(c, o) for c, o in p.conds if c[0] in ("discr", "isvar") and "position" in S.vstr(c)]
         r = p.end[1]
         pushes = p.calls(r"Vec::<.*CharacterClass>::push$")
+        def uncast(t):
+            while t[0] == "cast":
+                t = t[2]
+            return t
+        r0 = uncast(r)
         if pushes:
-            ok = "Vec::len(&self.character_classes)" in S.vstr(r) and len(pushes) == 1
-            ob("C02.f", "new-class-id-is-its-index", ok, "new class gets id %s and is pushed once" % S.vstr(r), ac.loc())
+            # the id is exactly the length of the table before the push (= the index the class is stored at), and the
+            # stored class carries the same id
+            is_len = r0[0] == "app" and re.search(r"Vec::<.*CharacterClass>::len$", r0[1]) is not None and "self.character_classes" in S.fstr(r0[2][0])
+            pv = pushes[0][3][1]
+            same_id = pv[0] == "adt" and len(pv[3]) >= 1 and uncast(pv[3][0]) == r0
+            ok = is_len and same_id and len(pushes) == 1
+            ob("C02.f", "new-class-id-is-its-index", ok, "new class gets id %s, stored class has id %s, pushed %d time(s)" % (S.vstr(r), S.vstr(pv[3][0]) if pv[0] == "adt" and pv[3] else "?", len(pushes)), ac.loc())
         else:
-            ok = "position" in S.vstr(r)
+            # the id is exactly the position found (no arithmetic on it)
+            ok = r0[0] == "field" and r0[1][0] == "downcast" and r0[1][2] == "Some" and r0[1][1][0] == "app" and re.search(r"Iterator>::position::", r0[1][1][1]) is not None and "self.character_classes" in S.fstr(r0[1][1][2][0])
             ob("C02.f", "known-class-id-is-its-position", ok, "known class gets id %s" % S.vstr(r)[:120], ac.loc())
     # dedup equality: equal ids must imply equal predicates (ComparableAst::eq compares exactly what the predicate is built from)
     ce = F.fn(r"ComparableAst as std::cmp::PartialEq>::eq$")
